@@ -6,7 +6,8 @@ from .common import FAIL, OK, Harness, P, guard, pick
 from asphalt.core import merge_config  # noqa: E402
 
 KEYS = ("a", "a.b")
-KINDS = ["absent", "int", "None", "list of pairs", "{}", "{x:int}", "{x:{y:int}}", "{'a.b':int, x:int}", "0", "[]", "{x:0}", "{x:False}", "{502:int, x:int} (an int key, e.g. a status code or port)"]
+KINDS = ["absent", "int", "None", "list of pairs", "{}", "{x:int}", "{x:{y:int}}", "{'a.b':int, x:int}", "0", "[]", "{x:0}", "{x:False}", "{502:int, x:int} (an int key, e.g. a status code or port)",
+         "a read-only Mapping that is not a dict: MappingProxyType({x:int})", "a dict SUBCLASS: OrderedDict({x:int, w:int})"]
 SYM_KINDS = [0, 1, 3, 5, 6]  # kinds used by the data-symbolic harness (leaves symbolic)
 
 
@@ -34,6 +35,14 @@ def build(kind, v):
         return {"x": False}
     if kind == 12:
         return {502: v, "x": v + 2}
+    if kind == 13:
+        import types
+
+        return types.MappingProxyType({"x": v})
+    if kind == 14:
+        from collections import OrderedDict
+
+        return OrderedDict([("x", v), ("w", v + 3)])
     return []
 
 
@@ -91,9 +100,13 @@ def nested_dicts(d, acc):
     return acc
 
 
+SECOND_KEY_QUICK = [0, 1, 4, 5, 7, 12, 13, 14]  # quick tier: the second key ranges over these kinds only
+
+
 def params(tier):
     n = len(KINDS) - 1
-    return [P("mo", 0, 1), P("mv", 0, 1), P("ka", 0, n), P("kb", 0, n), P("la", 0, n), P("lb", 0, n)]
+    nb = (len(SECOND_KEY_QUICK) if tier == "quick" else len(KINDS)) - 1
+    return [P("mo", 0, 1), P("mv", 0, 1), P("ka", 0, n), P("kb", 0, nb), P("la", 0, n), P("lb", 0, nb)]
 
 
 def sym_params(tier):
@@ -105,8 +118,9 @@ def sym_params(tier):
 def fn(a, tier):
     n = len(KINDS)
     mo, mv = pick(a["mo"], 2), pick(a["mv"], 2)
-    ko = [pick(a["ka"], n), pick(a["kb"], n)] if mo else [0, 0]
-    kv = [pick(a["la"], n), pick(a["lb"], n)] if mv else [0, 0]
+    second = (lambda c: SECOND_KEY_QUICK[pick(c, len(SECOND_KEY_QUICK))]) if tier == "quick" else (lambda c: pick(c, n))
+    ko = [pick(a["ka"], n), second(a["kb"])] if mo else [0, 0]
+    kv = [pick(a["la"], n), second(a["lb"])] if mv else [0, 0]
     return judge(mo, mv, ko, kv, [11, 12], [13, 14], "4 concrete ints")
 
 
@@ -146,7 +160,9 @@ def judge(mo, mv, ko, kv, vals_o, vals_v, leaves):
     if overrides:
         for k, val in overrides.items():
             if not (isinstance(val, dict) and isinstance((original or {}).get(k), dict)):
-                if isinstance(val, (list, dict)) and result.get(k) is not val:
+                from collections.abc import Mapping as _Mapping
+
+                if isinstance(val, (list, dict, _Mapping)) and result.get(k) is not val:
                     return FAIL(f"override-value-replaced-by-a-copy:{summary['original']}|{summary['overrides']}", k, summary)
     exp = ref_merge(o_copy, v_copy)
     ok = same(result, exp)
@@ -163,7 +179,8 @@ M = Harness(
     mode="cs",
     cube=lambda tier: 4,
     title="merge_config vs the reference merge, both arguments built from selectors",
-    bound_text=lambda tier: "each argument None or a dict over keys {'a','a.b'}; per key one of " + ", ".join(KINDS),
+    bound_text=lambda tier: "each argument None or a dict over keys {'a','a.b'}; per key one of " + ", ".join(KINDS)
+    + ("; quick tier: the second key ranges over " + ", ".join(KINDS[k] for k in SECOND_KEY_QUICK) + " only" if tier == "quick" else ""),
     oracle="result == reference merge written from the statement (structural comparison, no identity short cuts); both arguments structurally "
     "unchanged and every nested dict object of either argument unchanged by identity and content; result is a new top-level dict",
     outside="depth > 3, more than 2 keys per level, non-dict Mappings, keys other than the two",
